@@ -17,14 +17,14 @@ pub fn prop() -> Prop {
 
 fn spec() -> Spec {
     Spec {
-        kinds: vec![Kind { name: "ik_sound", quick: 150_000, thorough: 6_000_000, serial: false }],
+        kinds: vec![Kind { name: "ik_sound", quick: 800_000, thorough: 20_000_000, serial: false }],
         rule: "each case = generated robot (all classes incl. degenerate, 64 sign patterns, offsets, dof 5/6) x pose (reachable / random SE(3) / reach boundary / wrist centre on axis 1 / wrist singular / hostile NaN-inf-nonunit) x previous (generating, shifted by turns, uniform, far outside, sentinel, non-finite) ; all four inverse entry points are called and EVERY returned vector is pushed through the reference chain; non-trivial = a call returned >= 1 vector; distinct = hash(robot, pose, previous, entry point)",
         assumptions: vec![
             "stated accuracy 1e-6 m / 1e-6 rad plus slack 1e-9 + 1e-12*reach for the difference between the library FK and the reference chain",
             "for hostile poses (non-finite, non-unit quaternion) only no-panic and finiteness are required: there is no SE(3) element to reproduce",
             "5-DOF entry points and dof-5 robots: position and tool axis only",
         ],
-        minimums: vec![("oracle_evals", 500_000, 5_000_000), ("returned_vectors", 300_000, 3_000_000), ("hostile_calls_survived", 10_000, 100_000)],
+        minimums: vec![("oracle_evals", 5_000_000, 100_000_000), ("returned_vectors", 3_000_000, 60_000_000), ("hostile_calls_survived", 100_000, 2_000_000)],
     }
 }
 
